@@ -376,6 +376,9 @@ func checkC09(c *Check) {
 		{"public-call", "import m \"lib.tsh\"\n\nprint(m.Pub())\n", map[string]string{"lib.tsh": lib}, true},
 		{"missing-alias", "import \"lib.tsh\"\n\nprint(1)\n", map[string]string{"lib.tsh": lib}, false},
 		{"unknown-alias", "import m \"lib.tsh\"\n\nprint(x.Pub())\n", map[string]string{"lib.tsh": lib}, false},
+		{"unknown-alias-own-function-of-that-name", "import m \"lib.tsh\"\n\nfunc Pub() int {\n\treturn 10\n}\nprint(mx.Pub())\n", map[string]string{"lib.tsh": lib}, false},
+		{"unknown-alias-own-function-in-function", "import m \"lib.tsh\"\n\nfunc Double(a int) int {\n\treturn a * 2\n}\nfunc use() int {\n\treturn zz.Double(4)\n}\nprint(use())\n", map[string]string{"lib.tsh": lib}, false},
+		{"alias-of-other-import-for-function", "import (\n\tm \"lib.tsh\"\n\tn \"lib2.tsh\"\n)\n\nprint(n.Pub())\n", map[string]string{"lib.tsh": lib, "lib2.tsh": "func Other() int {\n\treturn 1\n}\n"}, false},
 		{"unknown-function", "import m \"lib.tsh\"\n\nprint(m.Nope())\n", map[string]string{"lib.tsh": lib}, false},
 		{"duplicate-alias", "import (\n\tm \"lib.tsh\"\n\tm \"lib2.tsh\"\n)\n\nprint(m.Pub())\n", map[string]string{"lib.tsh": lib, "lib2.tsh": lib + "// other\n"}, false},
 		{"missing-file", "import m \"nope.tsh\"\n\nprint(1)\n", nil, false},
